@@ -308,20 +308,9 @@ func (c *Ctx) effectFreeFrom(fn *ssa.Function, edges map[core.Edge]bool, cut map
 				}
 			}
 		case *ssa.Store:
-			// stores into local cells are fine; stores through fields of heap objects are effects
-			if _, ok := x.Addr.(*ssa.Alloc); ok {
-				return false
-			}
-			if fa, ok := x.Addr.(*ssa.FieldAddr); ok {
-				if al, ok := fa.X.(*ssa.Alloc); ok && !al.Heap {
-					return false
-				}
-				if al, ok := fa.X.(*ssa.Alloc); ok && al.Heap {
-					// freshly allocated object (e.g. a reply literal): benign
-					return false
-				}
-			}
-			return true
+			// stores into cells/objects allocated by this very function (locals, reply literals,
+			// vararg arrays) are not effects; stores through anything else are.
+			return !rootsInAlloc(x.Addr)
 		}
 		return false
 	}
@@ -345,4 +334,23 @@ func constHasBits(a, b *types.Const) bool {
 
 func constantInt64(k *types.Const) (int64, bool) {
 	return constant.Int64Val(constant.ToInt(k.Val()))
+}
+
+// rootsInAlloc: the address is (a field/element of) an object allocated in the same function.
+func rootsInAlloc(a ssa.Value) bool {
+	for i := 0; i < 8; i++ {
+		switch x := a.(type) {
+		case *ssa.Alloc:
+			return true
+		case *ssa.FieldAddr:
+			a = x.X
+		case *ssa.IndexAddr:
+			a = x.X
+		case *ssa.Slice:
+			a = x.X
+		default:
+			return false
+		}
+	}
+	return false
 }
